@@ -95,3 +95,9 @@ claim("C06",
       "Decides termination of rewrite evaluation by a syntactic ranking argument (every iteration of the CNAME chase adds the very host it continues with to a set created outside the loop, a seen host leaves the loop, the table is fixed under the read lock, helper loops are counted), that answered addresses come only from the IP field of entries found for the finally resolved host with the requested type, that the original question is saved before renaming and restored with the CNAME prepended, that a table match yields the Rewritten reason which ends host checking, and that entries enter the table only normalised and are never edited in place. "
       "The precedence relation itself (exact over wildcard, most specific wildcard, CNAME over address) is comparator arithmetic and not decided.",
       "DESIGN.md §5 C06")
+
+claim("C04",
+      "call-ordering and edge guards on SSA, field-set agreement between the index's add/remove siblings, who-may-mutate enumeration, lock dominance over static callers (static analysis)",
+      "Decides that lookups ask ClientID, then exact address, then subnets, then the DHCP MAC, each only after the previous failed; that own settings / own blocked services are applied only on their opt-out edges from the client's corresponding fields; that index changes are reached only after the clash checks returned nil inside one hold of the storage mutex, with an update removing the stored client's entries before adding the new ones; that add writes and remove deletes exactly all maps of the index, nobody else mutates them, and every identifier map is covered by a clash check and a finder; and that every index access happens under the storage mutex. "
+      "The comparator that makes 'most specific CIDR' win and consistency over arbitrary operation histories are value/history-level and not decided.",
+      "DESIGN.md §5 C04")
